@@ -71,6 +71,8 @@ COMPRESS = "dclab/cli/task_compress.py"
 REPACK = "dclab/cli/task_repack.py"
 TDMS = "dclab/cli/task_tdms2rtdc.py"
 COMMON = "dclab/cli/common.py"
+UTIL = "dclab/util.py"
+WRITER = "dclab/rtdc_dataset/writer.py"
 DEFECT = "dclab/rtdc_dataset/fmt_hdf5/feat_defect.py"
 H5INIT = "dclab/rtdc_dataset/fmt_hdf5/__init__.py"
 H5EVENTS = "dclab/rtdc_dataset/fmt_hdf5/events.py"
@@ -880,6 +882,49 @@ def _is_file(call, path_name, writable):
     return m == "r"
 
 
+def bind_like(repo, rel, qual, impl):
+    """stand-in for the repository function `rel::qual`: accepts exactly
+    the calls the real signature accepts (positional or keyword) and hands
+    the bound arguments to `impl(**bound)`"""
+    fn = repo.func(rel, qual)
+    a = fn.args
+    params = [x.arg for x in a.args]
+    if "." in qual and params and params[0] in ("self", "cls"):
+        params = params[1:]
+    n_def = len(a.defaults)
+    required = set(params[:len(params) - n_def]) if n_def else set(params)
+    kwonly = [x.arg for x in a.kwonlyargs]
+    kw_required = {x.arg for x, d in zip(a.kwonlyargs, a.kw_defaults)
+                   if d is None}
+
+    def stub(*args, **kwargs):
+        bound = {}
+        if len(args) > len(params) and a.vararg is None:
+            raise L.ModelFault("TypeError", f"{qual}() takes {len(params)} "
+                               f"positional arguments but {len(args)} were "
+                               f"given")
+        for p_, v in zip(params, args):
+            bound[p_] = v
+        extra = list(args[len(params):])
+        for k, v in kwargs.items():
+            if k in bound:
+                raise L.ModelFault("TypeError", f"{qual}() got multiple "
+                                   f"values for argument '{k}'")
+            if k not in params and k not in kwonly and a.kwarg is None:
+                raise L.ModelFault("TypeError", f"{qual}() got an "
+                                   f"unexpected keyword argument '{k}'")
+            bound[k] = v
+        miss = (required | kw_required) - set(bound)
+        if miss:
+            raise L.ModelFault("TypeError", f"{qual}() missing required "
+                               f"argument(s) {sorted(miss)}")
+        if extra:
+            bound["_varargs"] = extra
+        return impl(**bound)
+    stub.__name__ = qual
+    return stub
+
+
 # ----------------------------------------------------------------------
 # R8.5 condense_dataset
 
@@ -994,11 +1039,18 @@ def eval_condense(ctx, repo, agg):
            "RTDCWriter": lambda *a, **k: MWriter(rec, *a, **k),
            "RTDCBase": L.ModelType("RTDCBase", lambda o: True),
            "new_dataset": L.Opaque("new_dataset"),
-           "util": L.namespace("util", hashobj=lambda o: "cfghash",
-                               hashfile=lambda *a, **k: "filehash"),
+           "util": L.namespace(
+               "util",
+               hashobj=bind_like(repo, UTIL, "hashobj",
+                                 lambda **k: "cfghash"),
+               hashfile=bind_like(repo, UTIL, "hashfile",
+                                  lambda **k: "filehash")),
            "common": L.namespace(
-               "common", get_command_log=lambda **k: ["command log"],
-               assemble_warnings=lambda w: ["warnings"]),
+               "common",
+               get_command_log=bind_like(repo, COMMON, "get_command_log",
+                                         lambda **k: ["command log"]),
+               assemble_warnings=bind_like(repo, COMMON, "assemble_warnings",
+                                           lambda **k: ["warnings"])),
            "warnings": L.namespace("warnings", warn=lambda *a, **k: None),
            "version": "0.0", "List": None}
     env = it.env(CONDENSE, ext)
@@ -1158,12 +1210,19 @@ def eval_compress(ctx, repo, agg):
                "rtdc_copy": rtdc_copy_stub,
                "RTDCWriter": lambda *a, **k: MWriter(
                    rec, *a, registry=registry, **k),
-               "util": L.namespace("util", hashfile=lambda *a, **k: "md5sum"),
+               "util": L.namespace("util", hashfile=bind_like(
+                   repo, UTIL, "hashfile", lambda **k: "md5sum")),
                "common": L.namespace(
                    "common",
-                   setup_task_paths=lambda *a, **k: (p_in, p_out, p_tmp),
-                   get_command_log=lambda **k: ["this run: command log"],
-                   assemble_warnings=lambda w: ["this run: warnings"]),
+                   setup_task_paths=bind_like(
+                       repo, COMMON, "setup_task_paths",
+                       lambda **k: (p_in, p_out, p_tmp)),
+                   get_command_log=bind_like(
+                       repo, COMMON, "get_command_log",
+                       lambda **k: ["this run: command log"]),
+                   assemble_warnings=bind_like(
+                       repo, COMMON, "assemble_warnings",
+                       lambda **k: ["this run: warnings"])),
                "warnings": L.namespace(
                    "warnings", warn=lambda *a, **k: None,
                    simplefilter=lambda *a, **k: None,
@@ -2460,4 +2519,71 @@ TWINS = list(TWINS) + [
      [('    paths_temp = [po.with_suffix(".rtdc~") for po in paths_out]\n',
        '    paths_temp = []\n    for po in paths_out:\n'
        '        paths_temp.append(po.with_suffix(".rtdc~"))\n')]),
+]
+
+# round-4 refactorings (campaign/refactorings_round4: C08/refactor5,
+# C08/refactor3, C09/refactor4)
+TWINS = list(TWINS) + [
+    ("compress: calling style of the in-repository calls switched", COMPRESS,
+     [("        path_in, path_out, allowed_input_suffixes="
+       "allowed_input_suffixes)",
+       "        paths_in=path_in,\n        paths_out=path_out,\n"
+       "        allowed_input_suffixes=allowed_input_suffixes)"),
+      ("common.get_command_log(paths=[path_in])",
+       "common.get_command_log([path_in])"),
+      ("            rtdc_copy(src_h5file=h5,\n"
+       "                      dst_h5file=hc,",
+       "            rtdc_copy(h5,\n                      hc,"),
+      ("    with RTDCWriter(path_temp,",
+       "    with RTDCWriter(path_or_h5file=path_temp,"),
+      ("            hw.store_log(name, logs[name])",
+       "            hw.store_log(name=name, lines=logs[name])")]),
+    ("h5ds_copy: group members copied through functools.partial", COPIER,
+     [("import json\n", "import functools\nimport json\n"),
+      ("        for key in src:\n"
+       "            h5ds_copy(src_loc=src,\n"
+       "                      src_name=key,\n"
+       "                      dst_loc=dst_rec,\n"
+       "                      ensure_compression=ensure_compression,\n"
+       "                      recursive=recursive)\n",
+       "        copy_member = functools.partial(\n"
+       "            h5ds_copy, src_loc=src, dst_loc=dst_rec,\n"
+       "            ensure_compression=ensure_compression,\n"
+       "            recursive=recursive)\n"
+       "        for key in src:\n"
+       "            copy_member(src_name=key)\n")]),
+    ("setup_task_paths: collision check over itertools.product", COMMON,
+     [("import hashlib\n", "import hashlib\nimport itertools\n"),
+      ("    for pi in paths_in:\n"
+       "        for pp in paths_out + paths_temp:\n"
+       "            if pp.resolve() == pi.resolve():\n"
+       "                raise ValueError(\n"
+       "                    f\"Output path '{pp}' is identical to an input "
+       "path!\")\n",
+       "    for pi, pp in itertools.product(paths_in, "
+       "paths_out + paths_temp):\n"
+       "        if pp.resolve() == pi.resolve():\n"
+       "            raise ValueError(\n"
+       "                f\"Output path '{pp}' is identical to an input "
+       "path!\")\n")]),
+]
+
+MUTANTS = list(MUTANTS) + [
+    ("partial copies every member under the group's own name", COPIER,
+     [("import json\n", "import functools\nimport json\n"),
+      ("        for key in src:\n"
+       "            h5ds_copy(src_loc=src,\n"
+       "                      src_name=key,\n"
+       "                      dst_loc=dst_rec,\n"
+       "                      ensure_compression=ensure_compression,\n"
+       "                      recursive=recursive)\n",
+       "        copy_member = functools.partial(\n"
+       "            h5ds_copy, src_loc=src, dst_loc=dst_loc,\n"
+       "            ensure_compression=ensure_compression,\n"
+       "            recursive=recursive)\n"
+       "        for key in src:\n"
+       "            copy_member(src_name=key)\n")], "R8.4"),
+    ("compress passes the output as the input of the command log", COMPRESS,
+     ("common.get_command_log(paths=[path_in])",
+      "common.get_command_log(path=[path_in])"), "R8.20"),
 ]
